@@ -1,2 +1,267 @@
-From Coq Require Import List ZArith Bool String Lia.
+(* C18 — rendered model images are the exact superposition of their sources.
+   Property theorems only; each is closed by [exact] of a lemma of C18_Proofs.
+
+   Reading guide.  [render ev bbox_shape ev_unit c t] is the model of
+   make_model_image(shape, model, params_table, ...) after the repairs C18-1 / C18-2
+   (C18_Model.v): [c] holds the image shape, the input model's parameters and the keyword
+   arguments, [t] the table; the result is [Err] (ValueError) or [Img unit image].
+   Section variables (ANY function): [ev st y x] = value of the discretised model with
+   parameters [st] at pixel (y, x); [bbox_shape] = _model_shape_from_bbox; [ev_unit] =
+   output unit of the model.  Values are exact integers (scaled), so "equal" means equal
+   in exact arithmetic; floating-point rounding of the sums is outside these theorems
+   (bound comparison in harness/c18.py).
+   Vocabulary (C18_Model.v, section Spec): [rstate c t r] = the input model's parameters
+   with the mapped ones replaced by row r's entries; [row_y8/row_x8] = 8 * position;
+   [shape_of] = the row's model_shape (column / argument / bounding box); [bkg_of] =
+   local_bkg; [in_box pos8 sh k] = pos - sh/2 <= k < pos + sh/2;
+   [in_window r y x] = pixel (y, x) of the image lies in the row's model_shape box;
+   [term y x r] = (model value + local_bkg) if in_window else 0. *)
+From Coq Require Import List ZArith Bool String Lia Permutation.
 From PV Require Import lib.Cases C18_Model C18_Proofs.
+Import ListNotations.
+Open Scope Z_scope.
+
+(* ---------------- the window: overlap_slices(mode='trim') ---------------- *)
+
+(* int(ceil(pos - sh/2)) <= k < int(ceil(pos - sh/2)) + sh  iff the centre of pixel k lies
+   in the half-open box of sh pixels centred on pos *)
+Theorem window_axis_is_centred_box : forall pos8 sh k,
+  e_min pos8 sh <= k < e_min pos8 sh + sh <-> in_box pos8 sh k.
+Proof. exact e_min_box. Qed.
+Print Assumptions window_axis_is_centred_box.
+
+(* a returned slice pair covers exactly the pixels common to the box and the image *)
+Theorem window_is_box_clipped_to_image : forall ny nx sh y8 x8 w,
+  overlap_slices ny nx sh y8 x8 = Some w ->
+  forall y x, in_w w y x = true <->
+    (0 <= y < ny /\ 0 <= x < nx /\ in_box y8 (fst sh) y /\ in_box x8 (snd sh) x).
+Proof. exact overlap_some. Qed.
+Print Assumptions window_is_box_clipped_to_image.
+
+(* NoOverlapError is raised only when box and image have no pixel in common ... *)
+Theorem no_overlap_means_no_common_pixel : forall ny nx sh y8 x8,
+  overlap_slices ny nx sh y8 x8 = None ->
+  forall y x, ~ (0 <= y < ny /\ 0 <= x < nx /\ in_box y8 (fst sh) y /\ in_box x8 (snd sh) x).
+Proof. exact overlap_none. Qed.
+Print Assumptions no_overlap_means_no_common_pixel.
+
+(* ... and, for non-negative shapes, a returned window always contains a pixel *)
+Theorem window_nonempty : forall ny nx sh y8 x8 w,
+  0 <= ny -> 0 <= nx -> 0 <= fst sh -> 0 <= snd sh ->
+  overlap_slices ny nx sh y8 x8 = Some w ->
+  exists y x, 0 <= y < ny /\ 0 <= x < nx /\ in_box y8 (fst sh) y /\ in_box x8 (snd sh) x.
+Proof. exact overlap_some_nonempty. Qed.
+Print Assumptions window_nonempty.
+
+(* ---------------- the loop ---------------- *)
+
+(* The loop that re-uses ONE mutable model copy is a fold of independent per-row
+   contributions: the parameters used for a row are [rstate] of that row, whatever rows were
+   rendered before (no parameter leaks from row to row), shape / local_bkg looked up by the
+   running index are those of the row itself. *)
+Theorem loop_is_fold_of_independent_rows : forall ev bbox_shape ev_unit c t,
+  render ev bbox_shape ev_unit c t =
+  if accepted c t
+  then Img (unit_of ev_unit c t (rows t)) (fold_left (paint ev bbox_shape c t) (rows t) (zeros (ny c) (nx c)))
+  else Err.
+Proof. exact render_eq. Qed.
+Print Assumptions loop_is_fold_of_independent_rows.
+
+(* the call is rejected exactly when a mapped name is not a model parameter / table column,
+   or no window shape is available *)
+Theorem render_rejects_iff : forall ev bbox_shape ev_unit c t,
+  render ev bbox_shape ev_unit c t = Err <-> accepted c t = false.
+Proof. exact render_err_iff. Qed.
+Print Assumptions render_rejects_iff.
+Theorem accepted_iff : forall c t, accepted c t = true <->
+  (forall k col, In (k, col) (build_map c t) -> In k (pnames c) /\ In col (colnames t)) /\
+  (has_shape_col t = true \/ has_bbox c = true \/ mshape c <> None).
+Proof. exact accepted_spec. Qed.
+Print Assumptions accepted_iff.
+
+Theorem image_has_requested_shape : forall ev bbox_shape ev_unit c t u img,
+  render ev bbox_shape ev_unit c t = Img u img -> rect (ny c) (nx c) img.
+Proof. exact render_rect. Qed.
+Print Assumptions image_has_requested_shape.
+
+(* ---------------- the property clauses ---------------- *)
+
+(* every pixel = sum over the rows whose clipped window contains it of model value + local_bkg *)
+Theorem image_is_superposition : forall ev bbox_shape ev_unit c t u img,
+  render ev bbox_shape ev_unit c t = Img u img ->
+  forall y x, 0 <= y < ny c -> 0 <= x < nx c ->
+    pixel img y x = zsum (map (term ev bbox_shape c t y x) (rows t)).
+Proof. exact superposition. Qed.
+Print Assumptions image_is_superposition.
+
+Theorem in_windowb_reflects : forall bbox_shape c t r y x,
+  in_windowb bbox_shape c t r y x = true <-> in_window bbox_shape c t r y x.
+Proof. exact in_windowb_spec. Qed.
+Print Assumptions in_windowb_reflects.
+
+(* any permutation of the rows gives the same image (and, when all rows have the same
+   output unit — units are per column —, the same unit) *)
+Theorem row_order_invariant : forall ev bbox_shape ev_unit c t t' u img,
+  colnames t' = colnames t -> has_shape_col t' = has_shape_col t -> has_bkg_col t' = has_bkg_col t ->
+  Permutation (rows t) (rows t') ->
+  render ev bbox_shape ev_unit c t = Img u img ->
+  exists u', render ev bbox_shape ev_unit c t' = Img u' img /\ (units_uniform ev_unit c t -> u' = u).
+Proof. exact row_order. Qed.
+Print Assumptions row_order_invariant.
+
+(* image(a ++ b) = image(a) + image(b) *)
+Theorem additive_over_concat : forall ev bbox_shape ev_unit c t a b u img,
+  render ev bbox_shape ev_unit c (with_rows t (a ++ b)) = Img u img ->
+  exists ua ia ub ib,
+    render ev bbox_shape ev_unit c (with_rows t a) = Img ua ia /\
+    render ev bbox_shape ev_unit c (with_rows t b) = Img ub ib /\ img = img_add ia ib.
+Proof. exact concat. Qed.
+Print Assumptions additive_over_concat.
+
+(* dropping all rows that raise NoOverlapError changes nothing (unit: as long as a row is left) *)
+Theorem non_overlapping_rows_skipped : forall ev bbox_shape ev_unit c t u img,
+  render ev bbox_shape ev_unit c t = Img u img ->
+  exists u', render ev bbox_shape ev_unit c (with_rows t (filter (overlaps bbox_shape c t) (rows t))) = Img u' img /\
+             (units_uniform ev_unit c t -> filter (overlaps bbox_shape c t) (rows t) <> [] -> u' = u).
+Proof. exact skipped. Qed.
+Print Assumptions non_overlapping_rows_skipped.
+
+(* a non-overlapping row inserted anywhere leaves the image unchanged *)
+Theorem non_overlapping_row_anywhere : forall ev bbox_shape ev_unit c t a r b u img,
+  overlaps bbox_shape c t r = false ->
+  render ev bbox_shape ev_unit c (with_rows t (a ++ r :: b)) = Img u img ->
+  exists u', render ev bbox_shape ev_unit c (with_rows t (a ++ b)) = Img u' img.
+Proof. exact skipped_insert. Qed.
+Print Assumptions non_overlapping_row_anywhere.
+
+(* "overlaps" is the geometric notion: some image pixel lies in the model_shape box *)
+Theorem overlaps_iff_common_pixel : forall bbox_shape c t r,
+  0 <= ny c -> 0 <= nx c -> 0 <= fst (shape_of bbox_shape c t r) -> 0 <= snd (shape_of bbox_shape c t r) ->
+  (overlaps bbox_shape c t r = true <-> exists y x, in_window bbox_shape c t r y x).
+Proof. exact overlaps_iff. Qed.
+Print Assumptions overlaps_iff_common_pixel.
+
+(* the unit of the image is the model's output unit, whichever rows overlap (repaired code) *)
+Theorem units_independent_of_overlap : forall ev bbox_shape ev_unit c t u img,
+  render ev bbox_shape ev_unit c t = Img u img -> units_uniform ev_unit c t ->
+  forall r, In r (rows t) -> u = ev_unit (rstate c t r).
+Proof. exact units. Qed.
+Print Assumptions units_independent_of_overlap.
+Theorem units_from_first_row : forall ev bbox_shape ev_unit c t u img r l,
+  render ev bbox_shape ev_unit c t = Img u img -> rows t = r :: l -> u = ev_unit (rstate c t r).
+Proof. exact units_first. Qed.
+Print Assumptions units_from_first_row.
+
+(* residual = data - model image, pixel by pixel, = data - superposition *)
+Theorem residual_is_data_minus_model : forall ev bbox_shape ev_unit c t data res,
+  rect (ny c) (nx c) data ->
+  residual ev bbox_shape ev_unit c t data = Some res ->
+  rect (ny c) (nx c) res /\
+  exists u img, render ev bbox_shape ev_unit c t = Img u img /\
+    forall y x, 0 <= y < ny c -> 0 <= x < nx c ->
+      pixel res y x = pixel data y x - pixel img y x /\
+      pixel res y x = pixel data y x - zsum (map (term ev bbox_shape c t y x) (rows t)).
+Proof. exact residual_spec. Qed.
+Print Assumptions residual_is_data_minus_model.
+
+(* integer translation covariance (cited by C03): if every row of t' is the (dy, dx)-shifted
+   version of the corresponding row of t (positions move by (dy, dx), window shape and
+   local_bkg equal, the model value moves with the source), then wherever both the pixel and
+   its image under the shift lie in their frames (frames may differ) the rendered values agree *)
+Theorem render_shift : forall ev bbox_shape ev_unit c t c' t' (f : row -> row) dy dx,
+  rows t' = map f (rows t) ->
+  (forall r, In r (rows t) ->
+     row_y8 c' t' (f r) = row_y8 c t r + 8 * dy /\ row_x8 c' t' (f r) = row_x8 c t r + 8 * dx /\
+     shape_of bbox_shape c' t' (f r) = shape_of bbox_shape c t r /\ bkg_of t' (f r) = bkg_of t r /\
+     forall y x, ev (rstate c' t' (f r)) (y + dy) (x + dx) = ev (rstate c t r) y x) ->
+  forall u img u' img',
+  render ev bbox_shape ev_unit c t = Img u img -> render ev bbox_shape ev_unit c' t' = Img u' img' ->
+  forall y x, 0 <= y < ny c -> 0 <= x < nx c -> 0 <= y + dy < ny c' -> 0 <= x + dx < nx c' ->
+    pixel img' (y + dy) (x + dx) = pixel img y x.
+Proof. exact shift. Qed.
+Print Assumptions render_shift.
+
+(* ---------------- the UNREPAIRED code violates two clauses (witnesses) ---------------- *)
+
+(* /repo HEAD, unit-ful model (ev_unit = Some 1): the same two rows render in one order and
+   raise UnitTypeError in the other (first row off the image); with every row off the image
+   the result carries no unit although the model has one *)
+Theorem units_independent_of_overlap_unrepaired_refuted :
+  exists c t t' img,
+    Permutation (rows t) (rows t') /\
+    render_orig (poly_ev 0) poly_bbox (fun _ => Some 1) c t = Img (Some 1) img /\
+    render_orig (poly_ev 0) poly_bbox (fun _ => Some 1) c t' = Err /\
+    (exists img0, render_orig (poly_ev 0) poly_bbox (fun _ => Some 1) c (with_rows t (tl (rows t'))) = Img (Some 1) img0
+                  /\ render (poly_ev 0) poly_bbox (fun _ => Some 1) c t' = Img (Some 1) img0) /\
+    exists t0 img1, rows t0 <> [] /\ render_orig (poly_ev 0) poly_bbox (fun _ => Some 1) c t0 = Img None img1.
+Proof.
+  exists (Witness.cfg 3 3 (Some (1, 1))), (Witness.tbl [[8; 8; 16]; [-80; 8; 16]]),
+         (Witness.tbl [[-80; 8; 16]; [8; 8; 16]]).
+  eexists. split; [apply perm_swap|]. split; [vm_compute; reflexivity|]. split; [vm_compute; reflexivity|].
+  split; [eexists; split; vm_compute; reflexivity|].
+  exists (Witness.tbl [[-80; 8; 16]]). eexists. split; [discriminate|vm_compute; reflexivity].
+Qed.
+Print Assumptions units_independent_of_overlap_unrepaired_refuted.
+
+(* /repo HEAD: a row whose 1x1 window ends exactly at the left image edge (x = -1) does not
+   overlap, yet the call raises (ValueError from astropy's overlap_slices on an ndarray
+   shape) instead of skipping the row; the repaired code skips it *)
+Theorem non_overlapping_rows_skipped_unrepaired_refuted :
+  exists c t r img,
+    rows t = [r] /\ overlaps poly_bbox c t r = false /\
+    render_orig (poly_ev 0) poly_bbox (fun _ => None) c t = Err /\
+    render_orig (poly_ev 0) poly_bbox (fun _ => None) c (with_rows t []) = Img None img /\
+    render (poly_ev 0) poly_bbox (fun _ => None) c t = Img None img.
+Proof.
+  exists (Witness.cfg 3 3 (Some (1, 1))), (Witness.tbl [[-8; 8; 16]]).
+  eexists. eexists. split; [reflexivity|]. repeat split; vm_compute; reflexivity.
+Qed.
+Print Assumptions non_overlapping_rows_skipped_unrepaired_refuted.
+
+(* ---------------- non-vacuity ---------------- *)
+
+(* a concrete accepted call: two sources on a 5x6 image with 3x3 windows, oversample(2),
+   local_bkg 1 each; the first window is clipped by the lower-left corner (65536 = 1.0) *)
+Example render_example :
+  render (poly_ev 2) poly_bbox (fun _ => None) Witness.c1 Witness.t1 =
+  Img None [[151552; 282624; 0; 0; 0; 0];
+            [20480; 151552; -75776; -75776; -141312; 0];
+            [0; 0; -10240; -10240; -75776; 0];
+            [0; 0; 55296; 55296; -10240; 0];
+            [0; 0; 0; 0; 0; 0]].
+Proof. vm_compute. reflexivity. Qed.
+
+(* the premises of render_shift hold for the polynomial model and a (1, 2)-pixel shift into a
+   7x9 frame, and its conclusion is not vacuous *)
+Example render_shift_premises :
+  forall r, In r (rows Witness.t1) ->
+     row_y8 (with_shape Witness.c1 7 9) Witness.t1s (Witness.shift_row 1 2 r) = row_y8 Witness.c1 Witness.t1 r + 8 * 1 /\
+     row_x8 (with_shape Witness.c1 7 9) Witness.t1s (Witness.shift_row 1 2 r) = row_x8 Witness.c1 Witness.t1 r + 8 * 2 /\
+     shape_of poly_bbox (with_shape Witness.c1 7 9) Witness.t1s (Witness.shift_row 1 2 r)
+       = shape_of poly_bbox Witness.c1 Witness.t1 r /\
+     bkg_of Witness.t1s (Witness.shift_row 1 2 r) = bkg_of Witness.t1 r /\
+     forall y x, poly_ev 2 (rstate (with_shape Witness.c1 7 9) Witness.t1s (Witness.shift_row 1 2 r)) (y + 1) (x + 2)
+                 = poly_ev 2 (rstate Witness.c1 Witness.t1 r) y x.
+Proof. exact witness_shift_hyps. Qed.
+Example render_shift_example :
+  exists u img u' img',
+    render (poly_ev 2) poly_bbox (fun _ => None) Witness.c1 Witness.t1 = Img u img /\
+    render (poly_ev 2) poly_bbox (fun _ => None) (with_shape Witness.c1 7 9) Witness.t1s = Img u' img' /\
+    pixel img 1 3 = -75776 /\ pixel img' 2 5 = -75776 /\
+    (* the clipped part of the first window re-appears in the larger frame *)
+    pixel img' 0 1 <> 0.
+Proof. do 4 eexists. repeat split; try (vm_compute; reflexivity). vm_compute. discriminate. Qed.
+
+(* units_uniform is satisfiable (constant unit) and row order / skipping have non-trivial instances *)
+Example units_uniform_example : units_uniform (fun _ => Some 1) Witness.c1 Witness.t1.
+Proof. intros r r' _ _. reflexivity. Qed.
+Example skipped_example :
+  filter (overlaps poly_bbox Witness.c1 (Witness.tbl [[4; 0; 16]; [-80; 8; 16]; [28; 20; -8]]))
+         (rows (Witness.tbl [[4; 0; 16]; [-80; 8; 16]; [28; 20; -8]])) = rows Witness.t1.
+Proof. vm_compute. reflexivity. Qed.
+(* rejected calls exist *)
+Example rejected_example :
+  render (poly_ev 0) poly_bbox (fun _ => None)
+    {| ny := 3; nx := 3; pinit := pinit Witness.c1; has_bbox := true; x_name := "x_0"; y_name := "y_0";
+       pmap := Some [("flux", "nocol")]%string; mshape := None; bfactor := None |} Witness.t1 = Err.
+Proof. vm_compute. reflexivity. Qed.
